@@ -754,144 +754,147 @@ func drawLimit(t *rapid.T, rs int) uint64 {
 	return 16384
 }
 
-func TestPropMutation(t *testing.T) {
-	rapidProp.Rapid(t, func(t *rapid.T) Case {
-		c := Case{}
-		c.Draft, c.RS, c.Len = drawGeometry(t, 128<<10)
-		if rapid.IntRange(0, 9).Draw(t, "zeros") != 0 {
-			c.Seed = rapid.Int64Range(1, 1<<40).Draw(t, "seed")
+func TestPropMutation(t *testing.T) { rapidProp.Rapid(t, genPropMutation) }
+
+// TestConcMutation: batches of cases evaluated at the same time on separate goroutines (vh.Prop.Concurrent).
+func TestConcMutation(t *testing.T) { rapidProp.Concurrent(t, genPropMutation, 8, 3) }
+
+func genPropMutation(t *rapid.T) Case {
+	c := Case{}
+	c.Draft, c.RS, c.Len = drawGeometry(t, 128<<10)
+	if rapid.IntRange(0, 9).Draw(t, "zeros") != 0 {
+		c.Seed = rapid.Int64Range(1, 1<<40).Draw(t, "seed")
+	}
+	rs := c.RS
+	hl := honestLen(c.Draft, c.Len, rs)
+	nrec := (c.Len + rs - 1) / rs
+	if c.Draft == 2 && c.Len > 0 && c.Len%rs == 0 && rapid.IntRange(0, 2).Draw(t, "empty-final") == 0 {
+		c.EmptyFinal = true
+		hl += refmice.ProofLen
+		nrec++
+	}
+	unit := rs + refmice.ProofLen
+	kind := rapid.SampledFrom([]string{"flip", "flip", "flip", "trunc", "trunc", "trunc", "append", "swap", "swapunit", "dup", "drop", "recsize", "reframe", "reframe", "setproof", "splice", "none"}).Draw(t, "mutation")
+	m := Mut{Kind: kind}
+	idx := func(label string) int {
+		if nrec <= 1 {
+			return 0
 		}
-		rs := c.RS
-		hl := honestLen(c.Draft, c.Len, rs)
-		nrec := (c.Len + rs - 1) / rs
-		if c.Draft == 2 && c.Len > 0 && c.Len%rs == 0 && rapid.IntRange(0, 2).Draw(t, "empty-final") == 0 {
-			c.EmptyFinal = true
-			hl += refmice.ProofLen
-			nrec++
+		return rapid.IntRange(0, nrec-1).Draw(t, label)
+	}
+	switch kind {
+	case "flip":
+		if hl == 0 {
+			m.Kind = "none"
+			break
 		}
-		unit := rs + refmice.ProofLen
-		kind := rapid.SampledFrom([]string{"flip", "flip", "flip", "trunc", "trunc", "trunc", "append", "swap", "swapunit", "dup", "drop", "recsize", "reframe", "reframe", "setproof", "splice", "none"}).Draw(t, "mutation")
-		m := Mut{Kind: kind}
-		idx := func(label string) int {
-			if nrec <= 1 {
-				return 0
-			}
-			return rapid.IntRange(0, nrec-1).Draw(t, label)
+		var off int
+		switch rapid.IntRange(0, 4).Draw(t, "flip-where") {
+		case 0:
+			off = rapid.IntRange(0, minInt(7, hl-1)).Draw(t, "size-octet")
+		case 1:
+			off = hl - 1 - rapid.IntRange(0, minInt(40, hl-1)).Draw(t, "from-end")
+		case 2: // inside a proof
+			off = 8 + idx("unit")*unit + rs + rapid.IntRange(0, 31).Draw(t, "proof-octet")
+		case 3: // inside a record
+			off = 8 + idx("unit")*unit + rapid.IntRange(0, rs-1).Draw(t, "record-octet")
+		default:
+			off = rapid.IntRange(0, hl-1).Draw(t, "octet")
 		}
-		switch kind {
-		case "flip":
-			if hl == 0 {
-				m.Kind = "none"
-				break
-			}
-			var off int
-			switch rapid.IntRange(0, 4).Draw(t, "flip-where") {
-			case 0:
-				off = rapid.IntRange(0, minInt(7, hl-1)).Draw(t, "size-octet")
-			case 1:
-				off = hl - 1 - rapid.IntRange(0, minInt(40, hl-1)).Draw(t, "from-end")
-			case 2: // inside a proof
-				off = 8 + idx("unit")*unit + rs + rapid.IntRange(0, 31).Draw(t, "proof-octet")
-			case 3: // inside a record
-				off = 8 + idx("unit")*unit + rapid.IntRange(0, rs-1).Draw(t, "record-octet")
-			default:
-				off = rapid.IntRange(0, hl-1).Draw(t, "octet")
-			}
-			if off >= hl {
-				off = hl - 1
-			}
-			m.A = off*8 + rapid.IntRange(0, 7).Draw(t, "bit")
-		case "trunc":
-			switch rapid.IntRange(0, 3).Draw(t, "trunc-where") {
-			case 0: // end of a unit
-				m.A = 8 + (idx("unit")+1)*unit
-			case 1: // right after the octets of a record
-				m.A = 8 + idx("unit")*unit + rs
-			case 2:
-				m.A = 8 + idx("unit")*unit + rapid.SampledFrom([]int{0, 1, rs - 1, rs + 1, rs + 31, unit - 1, unit + 1}).Draw(t, "near")
-			default:
-				m.A = rapid.IntRange(0, hl).Draw(t, "length")
-			}
-			if m.A >= hl {
-				m.A = hl - 1
-			}
-			if m.A < 0 {
-				m.Kind = "none"
-				m.A = 0
-			}
-		case "append":
-			m.A = rapid.SampledFrom([]int{1, 2, 7, 8, 9, 31, 32, 33, rs, rs + 32, unit + 1, 2 * unit}).Draw(t, "suffix")
-			if rapid.Bool().Draw(t, "random-suffix") {
-				m.Seed = rapid.Int64Range(1, 1<<40).Draw(t, "suffix-seed")
-			}
-		case "swap", "swapunit":
-			if nrec < 2 {
-				m.Kind = "none"
-				break
-			}
-			m.A = rapid.IntRange(0, nrec-2).Draw(t, "i")
-			m.B = rapid.IntRange(m.A+1, nrec-1).Draw(t, "j")
-		case "dup", "drop":
-			if hl < 8 {
-				m.Kind = "none"
-				break
-			}
-			m.A = idx("unit")
-		case "setproof":
-			if nrec < 2 {
-				m.Kind = "none"
-				break
-			}
-			m.A = rapid.IntRange(1, nrec-1).Draw(t, "proof")
-			m.Seed = rapid.Int64Range(0, 1<<40).Draw(t, "proof-seed")
-		case "recsize":
-			if hl < 8 {
-				m.Kind = "none"
-				break
-			}
-			cands := []uint64{0, 1, uint64(rs) - 1, uint64(rs) + 1, 16384, 16385, 1 << 63, ^uint64(0), uint64(rs) + 32, uint64(c.Len), uint64(c.Len) + 1, uint64(rs) << 8, uint64(rs) << 56}
-			m.U = rapid.SampledFrom(cands).Draw(t, "size")
-			if rapid.IntRange(0, 3).Draw(t, "any-size") == 0 {
-				m.U = rapid.Uint64().Draw(t, "size-any") >> uint(rapid.IntRange(0, 63).Draw(t, "size-shift"))
-			}
-		case "reframe":
-			if hl < 9 {
-				m.Kind = "none"
-				break
-			}
-			m.U = uint64(rapid.SampledFrom([]int{unit, unit + 1, unit - 1, 2 * unit, hl - 8, 16384}).Draw(t, "frame"))
-			if rapid.IntRange(0, 3).Draw(t, "any-frame") == 0 {
-				m.U = uint64(rapid.IntRange(1, 16384).Draw(t, "frame-any"))
-			}
-			switch rapid.IntRange(0, 2).Draw(t, "cut") {
-			case 0:
-				m.A = 8 + unit
-			case 1:
-				m.A = 8 + (idx("unit")+1)*unit
-			default:
-				m.A = hl
-			}
-			if m.A > hl {
-				m.A = hl
-			}
-		case "splice":
-			if c.Len == 0 {
-				m.Kind = "none"
-				break
-			}
-			m.B = rapid.IntRange(0, 8*c.Len-1).Draw(t, "payload-bit")
-			m.A = rapid.IntRange(0, hl).Draw(t, "cut")
-			if rapid.Bool().Draw(t, "cut-at-unit") {
-				m.A = minInt(hl, 8+idx("unit")*unit)
-			}
+		if off >= hl {
+			off = hl - 1
 		}
-		c.Mut = m
-		c.MaxRS = drawLimit(t, rs)
-		c.Reads = drawReads(t, rs)
-		c.Chunk = rapid.SampledFrom([]int{0, 0, 1, 7, 4096}).Draw(t, "chunk")
-		c.EOFWithData = rapid.Bool().Draw(t, "eof-with-data")
-		return c
-	})
+		m.A = off*8 + rapid.IntRange(0, 7).Draw(t, "bit")
+	case "trunc":
+		switch rapid.IntRange(0, 3).Draw(t, "trunc-where") {
+		case 0: // end of a unit
+			m.A = 8 + (idx("unit")+1)*unit
+		case 1: // right after the octets of a record
+			m.A = 8 + idx("unit")*unit + rs
+		case 2:
+			m.A = 8 + idx("unit")*unit + rapid.SampledFrom([]int{0, 1, rs - 1, rs + 1, rs + 31, unit - 1, unit + 1}).Draw(t, "near")
+		default:
+			m.A = rapid.IntRange(0, hl).Draw(t, "length")
+		}
+		if m.A >= hl {
+			m.A = hl - 1
+		}
+		if m.A < 0 {
+			m.Kind = "none"
+			m.A = 0
+		}
+	case "append":
+		m.A = rapid.SampledFrom([]int{1, 2, 7, 8, 9, 31, 32, 33, rs, rs + 32, unit + 1, 2 * unit}).Draw(t, "suffix")
+		if rapid.Bool().Draw(t, "random-suffix") {
+			m.Seed = rapid.Int64Range(1, 1<<40).Draw(t, "suffix-seed")
+		}
+	case "swap", "swapunit":
+		if nrec < 2 {
+			m.Kind = "none"
+			break
+		}
+		m.A = rapid.IntRange(0, nrec-2).Draw(t, "i")
+		m.B = rapid.IntRange(m.A+1, nrec-1).Draw(t, "j")
+	case "dup", "drop":
+		if hl < 8 {
+			m.Kind = "none"
+			break
+		}
+		m.A = idx("unit")
+	case "setproof":
+		if nrec < 2 {
+			m.Kind = "none"
+			break
+		}
+		m.A = rapid.IntRange(1, nrec-1).Draw(t, "proof")
+		m.Seed = rapid.Int64Range(0, 1<<40).Draw(t, "proof-seed")
+	case "recsize":
+		if hl < 8 {
+			m.Kind = "none"
+			break
+		}
+		cands := []uint64{0, 1, uint64(rs) - 1, uint64(rs) + 1, 16384, 16385, 1 << 63, ^uint64(0), uint64(rs) + 32, uint64(c.Len), uint64(c.Len) + 1, uint64(rs) << 8, uint64(rs) << 56}
+		m.U = rapid.SampledFrom(cands).Draw(t, "size")
+		if rapid.IntRange(0, 3).Draw(t, "any-size") == 0 {
+			m.U = rapid.Uint64().Draw(t, "size-any") >> uint(rapid.IntRange(0, 63).Draw(t, "size-shift"))
+		}
+	case "reframe":
+		if hl < 9 {
+			m.Kind = "none"
+			break
+		}
+		m.U = uint64(rapid.SampledFrom([]int{unit, unit + 1, unit - 1, 2 * unit, hl - 8, 16384}).Draw(t, "frame"))
+		if rapid.IntRange(0, 3).Draw(t, "any-frame") == 0 {
+			m.U = uint64(rapid.IntRange(1, 16384).Draw(t, "frame-any"))
+		}
+		switch rapid.IntRange(0, 2).Draw(t, "cut") {
+		case 0:
+			m.A = 8 + unit
+		case 1:
+			m.A = 8 + (idx("unit")+1)*unit
+		default:
+			m.A = hl
+		}
+		if m.A > hl {
+			m.A = hl
+		}
+	case "splice":
+		if c.Len == 0 {
+			m.Kind = "none"
+			break
+		}
+		m.B = rapid.IntRange(0, 8*c.Len-1).Draw(t, "payload-bit")
+		m.A = rapid.IntRange(0, hl).Draw(t, "cut")
+		if rapid.Bool().Draw(t, "cut-at-unit") {
+			m.A = minInt(hl, 8+idx("unit")*unit)
+		}
+	}
+	c.Mut = m
+	c.MaxRS = drawLimit(t, rs)
+	c.Reads = drawReads(t, rs)
+	c.Chunk = rapid.SampledFrom([]int{0, 0, 1, 7, 4096}).Draw(t, "chunk")
+	c.EOFWithData = rapid.Bool().Draw(t, "eof-with-data")
+	return c
 }
 
 // hostileDigests: 32-octet values that are the digest of no payload anybody can exhibit, but
@@ -941,60 +944,63 @@ func TestHostileDigests(t *testing.T) {
 
 // TestPropArbitrary: arbitrary streams against the honest digest of some payload, and any
 // stream (honest ones included) against an arbitrary digest.
-func TestPropArbitrary(t *testing.T) {
-	arbProp.Rapid(t, func(t *rapid.T) Case {
-		c := Case{Draft: rapid.SampledFrom([]int{2, 3}).Draw(t, "draft")}
-		c.RS = rapid.SampledFrom([]int{1, 2, 3, 4, 8, 16, 31, 32, 33, 64}).Draw(t, "rs")
-		rs := c.RS
-		c.Len = rapid.SampledFrom([]int{0, 0, 1, rs - 1, rs, rs + 1, 2 * rs, 2*rs + 1, 3 * rs, 4*rs - 1}).Draw(t, "len")
-		c.Seed = rapid.Int64Range(0, 1<<40).Draw(t, "seed")
-		arbitraryDigest := rapid.Bool().Draw(t, "arbitrary-digest")
-		if arbitraryDigest {
-			c.Digest = rapid.SliceOfN(rapid.Byte(), 32, 32).Draw(t, "digest")
-			if rapid.IntRange(0, 2).Draw(t, "patterned-digest") == 0 {
-				c.Digest = rapid.SampledFrom(hostileDigests()).Draw(t, "digest-pattern")
-			}
+func TestPropArbitrary(t *testing.T) { arbProp.Rapid(t, genPropArbitrary) }
+
+// TestConcArbitrary: batches of cases evaluated at the same time on separate goroutines (vh.Prop.Concurrent).
+func TestConcArbitrary(t *testing.T) { arbProp.Concurrent(t, genPropArbitrary, 8, 3) }
+
+func genPropArbitrary(t *rapid.T) Case {
+	c := Case{Draft: rapid.SampledFrom([]int{2, 3}).Draw(t, "draft")}
+	c.RS = rapid.SampledFrom([]int{1, 2, 3, 4, 8, 16, 31, 32, 33, 64}).Draw(t, "rs")
+	rs := c.RS
+	c.Len = rapid.SampledFrom([]int{0, 0, 1, rs - 1, rs, rs + 1, 2 * rs, 2*rs + 1, 3 * rs, 4*rs - 1}).Draw(t, "len")
+	c.Seed = rapid.Int64Range(0, 1<<40).Draw(t, "seed")
+	arbitraryDigest := rapid.Bool().Draw(t, "arbitrary-digest")
+	if arbitraryDigest {
+		c.Digest = rapid.SliceOfN(rapid.Byte(), 32, 32).Draw(t, "digest")
+		if rapid.IntRange(0, 2).Draw(t, "patterned-digest") == 0 {
+			c.Digest = rapid.SampledFrom(hostileDigests()).Draw(t, "digest-pattern")
 		}
-		kinds := []string{"random", "size+random", "other-payload", "other-rs", "other-draft", "proofs-only", "honest-prefix+random"}
-		if arbitraryDigest {
-			kinds = append(kinds, "honest", "honest", "honest-truncated")
+	}
+	kinds := []string{"random", "size+random", "other-payload", "other-rs", "other-draft", "proofs-only", "honest-prefix+random"}
+	if arbitraryDigest {
+		kinds = append(kinds, "honest", "honest", "honest-truncated")
+	}
+	var s []byte
+	switch rapid.SampledFrom(kinds).Draw(t, "stream") {
+	case "random":
+		s = rapid.SliceOfN(rapid.Byte(), 0, 120).Draw(t, "bytes")
+	case "size+random":
+		f := uint64(rapid.SampledFrom([]int{rs, 1, 2, rs + 1, 20, 32, 64}).Draw(t, "field"))
+		s = cat(be64(f), rapid.SliceOfN(rapid.Byte(), 0, 150).Draw(t, "bytes"))
+	case "other-payload":
+		q := filler(rapid.Int64Range(1, 1<<40).Draw(t, "other-seed"), rapid.SampledFrom([]int{0, 1, rs, 2 * rs, 2*rs + 1, 3 * rs}).Draw(t, "other-len"))
+		s, _ = refmice.Encode(c.Draft, q, rs)
+	case "other-rs":
+		s, _ = refmice.Encode(c.Draft, c.payload(), rapid.SampledFrom([]int{1, rs + 1, rs + 32, 2 * rs, 3 * rs, 16384}).Draw(t, "other-rs"))
+	case "other-draft":
+		s, _ = refmice.Encode(5-c.Draft, c.payload(), rs)
+	case "proofs-only": // the proofs of the honest stream presented as if they were records
+		for _, pr := range refmice.Proofs(c.Draft, c.payload(), rs) {
+			s = append(s, pr...)
 		}
-		var s []byte
-		switch rapid.SampledFrom(kinds).Draw(t, "stream") {
-		case "random":
-			s = rapid.SliceOfN(rapid.Byte(), 0, 120).Draw(t, "bytes")
-		case "size+random":
-			f := uint64(rapid.SampledFrom([]int{rs, 1, 2, rs + 1, 20, 32, 64}).Draw(t, "field"))
-			s = cat(be64(f), rapid.SliceOfN(rapid.Byte(), 0, 150).Draw(t, "bytes"))
-		case "other-payload":
-			q := filler(rapid.Int64Range(1, 1<<40).Draw(t, "other-seed"), rapid.SampledFrom([]int{0, 1, rs, 2 * rs, 2*rs + 1, 3 * rs}).Draw(t, "other-len"))
-			s, _ = refmice.Encode(c.Draft, q, rs)
-		case "other-rs":
-			s, _ = refmice.Encode(c.Draft, c.payload(), rapid.SampledFrom([]int{1, rs + 1, rs + 32, 2 * rs, 3 * rs, 16384}).Draw(t, "other-rs"))
-		case "other-draft":
-			s, _ = refmice.Encode(5-c.Draft, c.payload(), rs)
-		case "proofs-only": // the proofs of the honest stream presented as if they were records
-			for _, pr := range refmice.Proofs(c.Draft, c.payload(), rs) {
-				s = append(s, pr...)
-			}
-			s = cat(be64(uint64(rapid.SampledFrom([]int{32, rs, 1}).Draw(t, "field"))), s)
-		case "honest":
-			s, _ = refmice.Encode(c.Draft, c.payload(), rs)
-		case "honest-prefix+random": // some honest units, then garbage
-			s, _ = refmice.Encode(c.Draft, c.payload(), rs)
-			keep := minInt(len(s), 8+rapid.IntRange(0, 3).Draw(t, "units")*(rs+refmice.ProofLen))
-			s = cat(s[:keep], rapid.SliceOfN(rapid.Byte(), 0, 100).Draw(t, "bytes"))
-		case "honest-truncated":
-			s, _ = refmice.Encode(c.Draft, c.payload(), rs)
-			s = s[:rapid.IntRange(0, len(s)).Draw(t, "keep")]
-		}
-		c.Mut = Mut{Kind: "replace", Bytes: s}
-		c.MaxRS = drawLimit(t, rs)
-		c.Reads = drawReads(t, rs)
-		c.Chunk = rapid.SampledFrom([]int{0, 0, 1, 7}).Draw(t, "chunk")
-		c.EOFWithData = rapid.Bool().Draw(t, "eof-with-data")
-		return c
-	})
+		s = cat(be64(uint64(rapid.SampledFrom([]int{32, rs, 1}).Draw(t, "field"))), s)
+	case "honest":
+		s, _ = refmice.Encode(c.Draft, c.payload(), rs)
+	case "honest-prefix+random": // some honest units, then garbage
+		s, _ = refmice.Encode(c.Draft, c.payload(), rs)
+		keep := minInt(len(s), 8+rapid.IntRange(0, 3).Draw(t, "units")*(rs+refmice.ProofLen))
+		s = cat(s[:keep], rapid.SliceOfN(rapid.Byte(), 0, 100).Draw(t, "bytes"))
+	case "honest-truncated":
+		s, _ = refmice.Encode(c.Draft, c.payload(), rs)
+		s = s[:rapid.IntRange(0, len(s)).Draw(t, "keep")]
+	}
+	c.Mut = Mut{Kind: "replace", Bytes: s}
+	c.MaxRS = drawLimit(t, rs)
+	c.Reads = drawReads(t, rs)
+	c.Chunk = rapid.SampledFrom([]int{0, 0, 1, 7}).Draw(t, "chunk")
+	c.EOFWithData = rapid.Bool().Draw(t, "eof-with-data")
+	return c
 }
 
 // ------------------------------------------------------------------------ several live decoders
